@@ -75,7 +75,8 @@ def rule_job(job):
         # _gettsim.shared (which grows when a decorated definition is re-executed) is recorded
         # separately as an observation, it does not feed any simulation
         d = sorted((k, id(v)) for k, v in vars(mod).items() if not k.startswith("__"))
-        return json.dumps([d, id(f.__code__), repr(sorted(f.__dict__))])
+        attrs = sorted((k, repr(v)) for k, v in f.__dict__.items() if k != "__wrapped__")   # incl. the contents of __info__ (dates, dag name, rounding key, skip_vectorization)
+        return json.dumps([d, id(f.__code__), attrs, repr(sorted(getattr(f, "__annotations__", {}).items(), key=str)), repr(f.__defaults__), repr(f.__kwdefaults__), f.__name__, f.__qualname__, hash(f.__doc__)])
 
     before = digest()
     aerr = ""
